@@ -22,6 +22,7 @@
 #include "simulate/6502.h"
 #include "simulate/tms9900.h"
 #include "simulate/ebpf.h"
+#include "simulate/1802.h"
 #undef private
 #undef protected
 
@@ -199,6 +200,28 @@ static std::string simx_ebpf(const SimxKV &kv, Memory *memory, int &ret)
   return o.s;
 }
 
+static std::string simx_1802(const SimxKV &kv, Memory *memory, int &ret)
+{
+  Simulate1802 *sim = new Simulate1802(memory);
+  simx_common_in(sim, kv);
+  sim->reg_d = simx_u(kv, "d"); sim->reg_p = simx_u(kv, "p"); sim->reg_x = simx_u(kv, "x"); sim->reg_t = simx_u(kv, "t");
+  sim->reg_n = simx_u(kv, "n"); sim->reg_i = simx_u(kv, "i"); sim->reg_b = simx_u(kv, "b");
+  sim->reg_cntr = simx_u(kv, "cntr"); sim->reg_cn = simx_u(kv, "cn");
+  sim->flag_df = simx_u(kv, "df"); sim->flag_q = simx_u(kv, "q"); sim->flag_mie = simx_u(kv, "mie"); sim->flag_cie = simx_u(kv, "cie");
+  sim->flag_xie = simx_u(kv, "xie"); sim->flag_cil = simx_u(kv, "cil"); sim->flag_etq = simx_u(kv, "etq");
+  for (int n = 0; n < 16; n++) { sim->reg_r[n] = simx_el(kv, "r", n, 4); }
+  ret = simx_run(sim);
+  SimxOut o;
+  o.add("d", sim->reg_d); o.add("p", sim->reg_p); o.add("x", sim->reg_x); o.add("t", sim->reg_t); o.add("n", sim->reg_n);
+  o.add("i", sim->reg_i); o.add("b", sim->reg_b); o.add("cntr", sim->reg_cntr); o.add("cn", sim->reg_cn);
+  o.add("df", sim->flag_df); o.add("q", sim->flag_q); o.add("mie", sim->flag_mie); o.add("cie", sim->flag_cie);
+  o.add("xie", sim->flag_xie); o.add("cil", sim->flag_cil); o.add("etq", sim->flag_etq);
+  simx_common_out(sim, kv, o);
+  o.arr("r", sim->reg_r, 16, 4);
+  delete sim;
+  return o.s;
+}
+
 static std::string simx_body(const std::vector<std::string> &args, const SimxKV &kv, CpuList *cpu);
 
 static std::string cmd_simx(const std::vector<std::string> &args)
@@ -247,6 +270,7 @@ static std::string simx_body(const std::vector<std::string> &args, const SimxKV 
   else if (args[0] == "6502") { st = simx_6502(kv, memory, ret); }
   else if (args[0] == "tms9900") { st = simx_tms9900(kv, memory, ret); }
   else if (args[0] == "ebpf") { st = simx_ebpf(kv, memory, ret); }
+  else if (args[0] == "1802") { st = simx_1802(kv, memory, ret); }
   else { alarm(0); delete memory; return "not-modelled"; }
   alarm(0);
   char buf[32];
